@@ -407,7 +407,7 @@ func sizeClass(n int) string {
 }
 
 // runEnv: one real server, one real client with handlers for `profile`, the plans issued by `conc` goroutines.
-func runEnv(c *hk.Ctx, cfg hk.SrvCfg, profileName string, profile []string, plans []*plan, conc int) {
+func runEnv(c *hk.Ctx, cfg hk.SrvCfg, profileName string, profile, unregister []string, plans []*plan, conc int) {
 	if profile == nil {
 		profile = []string{}
 	}
@@ -421,8 +421,11 @@ func runEnv(c *hk.Ctx, cfg hk.SrvCfg, profileName string, profile []string, plan
 		panic(err)
 	}
 	defer cl.Close()
-	for _, m := range profile {
+	for _, m := range append(append([]string{}, profile...), unregister...) {
 		cl.RegisterNotificationHandler(m, g.clientHandler)
+	}
+	for _, m := range unregister {
+		cl.UnregisterNotificationHandler(m) // registered, then removed again: must behave as never registered
 	}
 	ictx, cancel := context.WithTimeout(context.Background(), 20*time.Second)
 	if _, err := cl.Initialize(ictx, &mcp.InitializeRequest{}); err != nil {
